@@ -532,23 +532,27 @@ class TBRMatchedMarkets:
     budget_range = self.parameters.budget_range
     results = heapdict.HeapDict(size=self.parameters.n_designs)
 
-    if self.parameters.treatment_geos_range is None:
+    # The size ranges are filled in locally when not specified; the caller's
+    # parameter object is left as it is.
+    treatment_geos_range = self.parameters.treatment_geos_range
+    if treatment_geos_range is None:
       n_treatment = len(self.geo_assignments.t)
       max_treatment_size = n_treatment
       n_remaining = len(self.geo_assignments.all) - n_treatment
       if n_remaining == 0:
         max_treatment_size = n_treatment - 1
-      self.parameters.treatment_geos_range = (1, max_treatment_size)
+      treatment_geos_range = (1, max_treatment_size)
     else:
-      max_treatment_size = self.parameters.treatment_geos_range[1]
+      max_treatment_size = treatment_geos_range[1]
 
-    if self.parameters.control_geos_range is None:
+    control_geos_range = self.parameters.control_geos_range
+    if control_geos_range is None:
       n_control = len(self.geo_assignments.c)
       max_control_size = n_control
       n_remaining = len(self.geo_assignments.all) - n_control
       if n_remaining == 0:
         max_control_size = n_control - 1
-      self.parameters.control_geos_range = (1, max_control_size)
+      control_geos_range = (1, max_control_size)
 
     kappa_0 = len(self.geo_assignments.t_fixed)
     group_star_trt = {kappa_0: self.geo_assignments.t_fixed}
@@ -594,9 +598,8 @@ class TBRMatchedMarkets:
           # geos. Otherwise, we will never be able to augment the size of
           # treatment (to reach a size which would pass the checks) or decrease
           # the size of control
-          if (k >= self.parameters.treatment_geos_range[0]) and (
-              len(neighboring_control_group) <=
-              self.parameters.control_geos_range[1]):
+          if (k >= treatment_geos_range[0]) and (
+              len(neighboring_control_group) <= control_geos_range[1]):
             if (not neighboring_control_group) or (
                 not self.design_within_constraints(group_star_trt[k],
                                                    neighboring_control_group)):  # pytype: disable=wrong-arg-types
@@ -633,9 +636,8 @@ class TBRMatchedMarkets:
           augmented_treatment_group = group_star_trt[k].union([geo])
           updated_control_group = group_star_ctl[k] - set([geo])
           # see comment on lines 566-567 for the same if statement
-          if (k >= self.parameters.treatment_geos_range[0]) and (
-              len(updated_control_group) <=
-              self.parameters.control_geos_range[1]):
+          if (k >= treatment_geos_range[0]) and (
+              len(updated_control_group) <= control_geos_range[1]):
             if (not updated_control_group) or (
                 not self.design_within_constraints(augmented_treatment_group,
                                                    updated_control_group)):
